@@ -614,6 +614,16 @@ class Inliner:
         # loop) that is `break`; as the very last statement it is nothing at all
         if body and isinstance(body[-1], ast.Return) and body[-1].value is None:
             body = body[:-1] or [ast.Pass()]
+
+        def guards_to_else(stmts):
+            # `if c: ..; return` followed by more statements (a guard clause of the generator) is `if c: .. else: <the rest>`
+            for k, st_ in enumerate(stmts):
+                if isinstance(st_, ast.If) and not st_.orelse and st_.body and isinstance(st_.body[-1], ast.Return) and st_.body[-1].value is None and k + 1 < len(stmts) \
+                        and not _has(st_.body[:-1], ast.Return):
+                    new_if = ast.copy_location(ast.If(test=st_.test, body=st_.body[:-1] or [ast.copy_location(ast.Pass(), st_)], orelse=guards_to_else(stmts[k + 1:])), st_)
+                    return stmts[:k] + [new_if]
+            return stmts
+        body = guards_to_else(body)
         tail = body
         while tail and isinstance(tail[-1], ast.With):
             tail = tail[-1].body          # a loop that is the last thing inside the trailing `with` block(s) is still the last thing done
